@@ -4,13 +4,14 @@ case lines read from stdin, one result line per case on stdout.
   (id buffers (OPT...) LAYOUT)     to_buffers / from_buffers (containers of arrays, of raw bytes, form as JSON text)
   (id pickle  (OPT...) LAYOUT)     pickle.dumps / loads of ak.Array (and of ak.Record with (rec AT))
   (id numpy   (OPT...) LAYOUT)     to_numpy (allow_missing both ways), from_numpy back (regulararray both ways)
-  (id numpy2  (OPT...) LAYOUT)     LAYOUT = (np DT (shape) (data)) used as a raw ndarray (+ (mask (bits))) : from_numpy, to_numpy back
+  (id numpy2  (OPT...) LAYOUT)     LAYOUT = (np DT (shape) (data)) used as a raw ndarray (+ (mask (bits))) : from_numpy, ak.Array(.), to_numpy back
   (id arrow   (OPT...) LAYOUT)     to_arrow(list_to32, string_to32, allow_tensor), .to_pylist(), from_arrow back
 
 OPT: (fk default|custom|callable) (kf default|custom|callable) (pstart N) (parts n1 n2 ..) (repart n1 n2 ..)
      (proto P) (rec AT) (l32 B) (s32 B) (tensor B) (mask (b..)|scalar0)
 LAYOUT: syntax of /verif/impl/drv/drv_common.h plus
      dtypes float16 complex64 complex128 datetime64[U] timedelta64[U]; data atoms: int | nan | inf | -inf | nat | (c RE IM)
+     numpy2 only: dtypes U, >U, Un, S, Sn (NumPy unicode / bytes arrays); data atoms xHEX (UTF-8 bytes of the str / the bytes)
      (par ARR REC L) with ARR in none string bytestring char byte categorical
      (virt F L LAYOUT)  VirtualArray over an ArrayGenerator (F: form given, L: length given)
 
@@ -95,7 +96,15 @@ def mkindex(w, t):
 def np_from_sx(dt, shape, data):
     shape = tuple(ints(shape))
     dtype = np.dtype(dt)
-    if dtype.kind in 'Mm':
+    if dtype.kind in 'US':
+        # data atoms xHEX: the UTF-8 bytes of a str ('U'; invalid bytes = lone surrogates, surrogateescape) / the raw bytes ('S');
+        # dt without a width ('U', '>U', 'S') takes the width of the longest item, 'U7' / 'S7' pad (or cut) to that width
+        raw = [bytes.fromhex(x[1:]) for x in data]
+        vals = [b.decode('utf-8', 'surrogateescape') for b in raw] if dtype.kind == 'U' else raw
+        if dtype.itemsize == 0:
+            dtype = np.dtype('%s%s%d' % ('>' if dt.startswith('>') else '', dtype.kind, max([len(v) for v in vals] + [1])))
+        arr = np.array(vals, dtype=dtype) if vals else np.array([], dtype=dtype)
+    elif dtype.kind in 'Mm':
         vals = [np.iinfo(np.int64).min if x == 'nat' else int(x) for x in data]
         arr = np.array(vals, dtype=np.int64).view(dtype)
     elif dtype.kind == 'c':
@@ -589,6 +598,8 @@ def np_text_m(data, mask):
         if data.dtype.names is not None:
             return '(r' + ''.join(' (%s %s)' % (n, np_text_m(data[n], None if mask is None or mask.dtype.names is None else mask[n]))
                                   for n in data.dtype.names) + ')'
+        if isinstance(data, (str, bytes)):          # np.str_ / np.bytes_ items index like str / bytes, not like 0-d arrays
+            return value_text(str(data) if isinstance(data, str) else bytes(data))
         v = data[()]
         if data.dtype.kind in 'SU':
             return value_text(v.item() if hasattr(v, 'item') else v)
@@ -643,6 +654,7 @@ def run_numpy2(o, t):
     if 'step' in o and x.ndim >= 1:
         x = x[::int(o['step'][0])]
     out.append('(in ok (val %s) %s)' % (np_text(x), np_meta(x)))
+    out.append(guarded('ctor', lambda: describe('ctor', ak.Array(x))))       # the constructor takes ndarrays through from_numpy
     for ra in (False, True):
         nm = 'from_%s' % ('reg' if ra else 'nd')
 
